@@ -94,6 +94,10 @@ def directed(tier):
         # a copy dies by itself during the conciliation
         out.append(dict(base, script=[[0, 'start', 'n2', 'app:d1'], [3, 'start', 'n3', 'app:d1'],
                                       [3, 'when', 'conciliation', 'exit', 'n3', 'app:d1']]))
+        # both copies started in the same round: still STARTING (uptime 0 for both) when the Master looks
+        out.append(dict(base, script=[[0, 'start', 'n2', 'app:d1'], [0, 'start', 'n3', 'app:d1']], burst=True))
+        out.append(dict(base, script=[[2, 'start', 'n3', 'app:d2'], [2, 'start', 'n1', 'app:d2'],
+                                      [2, 'start', 'n2', 'app:d2']], burst=True))
         # only unmanaged duplicates
         out.append(dict(base, script=[[0, 'start', 'n2', 'unm:u1'], [2, 'start', 'n3', 'unm:u1'],
                                       [2, 'start', 'n1', 'unm:u1'], [1, 'start', 'n1', 'app:d1']], rounds=12))
